@@ -75,6 +75,10 @@ def decode_message(msg_bytes, time=0, check=True):
     """
     # TODO: this function is getting long.
 
+    # Any iterable of integers will do (a deque or a generator can't be
+    # sliced).
+    msg_bytes = list(msg_bytes)
+
     if len(msg_bytes) == 0:
         raise ValueError('message is 0 bytes long')
 
